@@ -8,8 +8,12 @@ import multiprocessing as mp
 
 VERIF = os.path.dirname(os.path.dirname(os.path.abspath(__file__)))
 HARNESS = os.path.join(VERIF, 'harness')
-TARGET = os.path.join(VERIF, 'target')
-REPO = '/repo'
+# The registered checks always run with the defaults below (/repo's working tree, /verif/target, evidence under /verif).
+# For development only (evaluating a seeded change in a scratch worktree without touching /repo, background sweeps on a
+# snapshot) the three locations can be redirected; nothing written in that mode is evidence.
+REPO = os.environ.get('VERIF_REPO', '/repo')
+TARGET = os.environ.get('VERIF_TARGET', os.path.join(VERIF, 'target'))
+OUT = os.environ.get('VERIF_OUT', VERIF)
 NPROC = int(os.environ.get('VERIF_JOBS', '16'))
 
 CHILD_ENV = dict(os.environ)
@@ -32,7 +36,14 @@ def build(profile='dev', quiet=True):
     if profile == 'release':
         cmd.append('--release')
     t0 = time.time()
-    p = subprocess.run(cmd, cwd=HARNESS, env=env, stdout=subprocess.PIPE, stderr=subprocess.STDOUT, text=True)
+    hdir = HARNESS
+    if REPO != '/repo':
+        hdir = os.path.join(TARGET, '_harness')
+        os.makedirs(hdir, exist_ok=True)
+        subprocess.run(['rsync', '-a', '--delete', '--exclude', 'target', HARNESS + '/', hdir + '/'], check=True)
+        with open(os.path.join(hdir, 'Cargo.toml')) as f: toml = f.read()
+        with open(os.path.join(hdir, 'Cargo.toml'), 'w') as f: f.write(toml.replace('path = "/repo"', 'path = "%s"' % REPO))
+    p = subprocess.run(cmd, cwd=hdir, env=env, stdout=subprocess.PIPE, stderr=subprocess.STDOUT, text=True)
     if p.returncode != 0:
         sys.stdout.write(p.stdout[-6000:])
         raise HarnessError('harness build failed (does /repo still compile?)')
@@ -384,7 +395,7 @@ def run_check(prop, modname, tier, seed, profiles=('dev',), meta=None):
     new, old = [], []
     for sig, v in sorted(viols.items()):
         (old if sig in known_sigs else new).append(v)
-    rdir = os.path.join(VERIF, 'replays', prop)
+    rdir = os.path.join(OUT, 'replays', prop)
     os.makedirs(rdir, exist_ok=True)
     for v in old:
         print('KNOWN-FINDING: property=%s %s (%s; seen %d times this run)' % (prop, v['sig'], known_sigs[v['sig']].get('what', ''), v['count']))
@@ -415,10 +426,10 @@ def run_check(prop, modname, tier, seed, profiles=('dev',), meta=None):
     if meta.get('exhaustive'): cov['exhaustive'] = True
     ev = {'property_id': prop, 'tier': tier, 'seed': seed, 'level': meta.get('level', 'exploration'), 'coverage': cov,
           'assumptions': meta.get('assumptions', []), 'wall_s': round(wall, 2), 'violations': len(new)}
-    os.makedirs(os.path.join(VERIF, 'evidence'), exist_ok=True)
-    tmp = os.path.join(VERIF, 'evidence', prop + '.json.tmp')
+    os.makedirs(os.path.join(OUT, 'evidence'), exist_ok=True)
+    tmp = os.path.join(OUT, 'evidence', prop + '.json.tmp')
     with open(tmp, 'w') as f: json.dump(ev, f, indent=1, default=str)
-    os.replace(tmp, os.path.join(VERIF, 'evidence', prop + '.json'))
+    os.replace(tmp, os.path.join(OUT, 'evidence', prop + '.json'))
     print('%s tier=%s seed=%d: %d executions judged, %d distinct non-trivial, %d inconclusive, %d known, %d new violations, %.1fs'
           % (prop, tier, seed, evaluations, len(fps), incon, len(old), len(new), wall))
     if new:
